@@ -520,6 +520,7 @@ func runC04(c *fw.Ctx) {
 	}
 	for i := 0; i < c.Pick(400, 4000); i++ { // exact power-of-two scaling: (s.A).(B/s) = A.B bit for bit, also for s = 2^-840
 		c.Case(func(k *fw.K) { c04Scaled(k) })
+		c.Case(func(k *fw.K) { c04MixedMagnitudes(k) })
 	}
 
 	// tensors that took part in REJECTED calls are used again
@@ -573,6 +574,71 @@ func runC04(c *fw.Ctx) {
 
 // c04Scaled: integer matrices scaled by exact powers of two. (s.A).(B/s) must equal A.B exactly, whatever
 // the magnitude of s (every element of s.A may be far below 1e-240 while none is zero).
+// c04MixedMagnitudes: ONE contraction holds entries of very different magnitudes - position j of every row of A is scaled by
+// 2^e_j and row j of B by 2^-e_j (e_j from {0, +-600, +-1000, +-1020}), so every product is the small integer it would be
+// without the scaling and the result is exact; some partners of giant entries are 0. With e = 1020 the SUM of an operand's
+// elements overflows although every element, product and result is finite.
+func c04MixedMagnitudes(k *fw.K) {
+	r := k.Rng
+	dst := RandShape(r, 0, 2, 2)
+	prs := batchPairs(dst)
+	pr := prs[r.Intn(len(prs))]
+	m, n, kk := 1+r.Intn(3), 2+r.Intn(3), 1+r.Intn(3)
+	sa := append(ref.CopyInts(pr[0]), m, n)
+	sb := append(ref.CopyInts(pr[1]), n, kk)
+	dot := r.Intn(3) == 0
+	if dot { // Dot contracts the last dimension of both operands
+		sb = append(ref.CopyInts(pr[1]), m, n)
+	}
+	a, b := ref.Zeros(sa), ref.Zeros(sb)
+	small := func() float64 { return float64(1+r.Intn(7)) * []float64{1, -1}[r.Intn(2)] }
+	for i := range a.Data {
+		a.Data[i] = small()
+	}
+	for i := range b.Data {
+		b.Data[i] = small()
+		if r.Intn(4) == 0 {
+			b.Data[i] = 0
+		}
+	}
+	es := make([]int, n)
+	for j := range es {
+		es[j] = []int{0, 600, -600, 1000, -1000, 1020, -1020}[r.Intn(7)]
+	}
+	as, bs := a.Clone(), b.Clone()
+	for i := range as.Data {
+		as.Data[i] = math.Ldexp(as.Data[i], es[i%n])
+	}
+	for i := range bs.Data {
+		j := (i / kk) % n
+		if dot {
+			j = i % n
+		}
+		bs.Data[i] = math.Ldexp(bs.Data[i], -es[j])
+	}
+	in := ref.Instr{Op: "matmul"}
+	if dot {
+		in.Op = "dot"
+	}
+	want, err := ref.Apply(in, []*ref.T{a, b})
+	if err != nil {
+		k.Failf("harness: %v", err)
+		return
+	}
+	k.Case = fcase{In: in, Ops: []*ref.T{as, bs}, Tag: "mixed magnitudes inside one contraction"}
+	k.Key("%s-mixed/%s/%s/%v", in.Op, shapeKey(sa), shapeKey(sb), es)
+	k.Count("mixed_magnitude_cases", 1)
+	ra, rb := rt.MustLeaf(as, false), rt.MustLeaf(bs, false)
+	y, err, p := exec(in, []tensor.Tensor{ra, rb})
+	if p != nil || err != nil || y == nil {
+		k.Failf("%s %v x %v with per-position scalings 2^%v / 2^-%v (all elements and products finite): panic=%v err=%v", in.Op, sa, sb, es, es, p, err)
+		return
+	}
+	if e := rt.Compare(y, want, 0, 0, nil, 0); e != nil {
+		k.Failf("%s %v x %v with per-position scalings 2^%v of A and 2^-%v of B (every product a small integer): %v", in.Op, sa, sb, es, es, e)
+	}
+}
+
 func c04Scaled(k *fw.K) {
 	dst := RandShape(k.Rng, 0, 2, 3)
 	prs := batchPairs(dst)
